@@ -93,7 +93,8 @@ fn main() {
             let mut sink = Sink::new(Box::new(std::io::BufWriter::new(f)));
             let sample_mod: u64 = args[4].parse().unwrap();
             let seed: u64 = args[5].parse().unwrap();
-            match tree::run_tree(&text, &mut sink, sample_mod, seed) {
+            let target = args.get(6).map(|s| s.as_str()).unwrap_or("staking");
+            match tree::run_tree(&text, &mut sink, sample_mod, seed, target) {
                 Ok(st) => {
                     let by: serde_json::Map<String, serde_json::Value> = st.by_kind.iter().map(|(k, v)| (k.clone(), json!({"ok": v.0, "refused": v.1}))).collect();
                     println!("{}", json!({"edges": st.edges, "executed": st.executed, "ok": st.ok_edges, "refused": st.refused_edges,
